@@ -7,6 +7,7 @@ CFG = dict(
         "Inst.gen_dim_guard: the cached branch of search_similar/search_in_collection is taken only for queries of the indexed dimension",
         "Inst.gen_keep_spec: SparseVector::try_from_dense keeps exactly the components with val != 0.0",
         "Inst.gen_constants: |v| > 1e-6 and sparse_threshold 0.5 in the representation choice",
+        "Inst.gen_zero_guards: the degenerate-vector test is `norm == 0.0` both in the index's cosine_distance_{dense,dense_with_registry,sparse} and in the exact scan's cosine_similarity",
         "Inst.gen_fallback: post-filtered search (search_with_post_filter, search_filtered_in_collection) falls back to the exact filtered search when fewer than k matches survive and the candidate list was cut off",
     ],
     crate="nvh_c06",
